@@ -411,6 +411,20 @@ theorem c13_go_cors_generic (ext : UrlExt) (cs : List OpenIDConnectClientConfig)
     KM.Gen.GoOidc.idpOpenIDCGenericIsCorsOriginAllowed ext cs s =
       (genericCorsAllowed (cs.map clientOf) (parsedOf ext s), none) := go_generic_cors_eq ext cs s
 
+/-- the translated `idpOpenIDCGetClientConfig` is the model's `getClient` (first client with that id), and it
+answers an error exactly when there is none -/
+theorem c13_go_getClient (cs : List OpenIDConnectClientConfig) (id : List Char) :
+    (KM.Gen.GoOidc.idpOpenIDCGetClientConfig cs id).1.map clientOf = getClient (cs.map clientOf) id ∧
+    ((KM.Gen.GoOidc.idpOpenIDCGetClientConfig cs id).2.isSome ↔ getClient (cs.map clientOf) id = none) := by
+  unfold KM.Gen.GoOidc.idpOpenIDCGetClientConfig getClient
+  rw [forRange_findRet (fun c : OpenIDConnectClientConfig => c.ClientID == id) (fun c => (some c, none)) _ (by
+    intro x s; cases s; rfl)]
+  rw [List.find?_map]
+  have e : ((fun c : Client => c.id == id) ∘ clientOf) = (fun c : OpenIDConnectClientConfig => c.ClientID == id) := by
+    funext c; rfl
+  rw [e]
+  cases cs.find? (fun c : OpenIDConnectClientConfig => c.ClientID == id) <;> simp
+
 /-- non-vacuity: the translated validator, run on concrete inputs with the model's `url.Parse` -/
 example :
     verdictOf3 (KM.Gen.GoOidc.CanRedirectToURL (extOfModel (fun _ _ => some true))
